@@ -78,5 +78,6 @@ ENGINES = [
     {"name": "config", "path": "sim/world_process.py", "kind_free_text": "verdict vectors in fresh interpreters under pre-import sets and stdout encodings"},
     {"name": "cli", "path": "sim/world_process.py", "kind_free_text": "real CLI processes for every entry point, oracle = in-process verdict"},
     {"name": "builder", "path": "sim/world_builder.py", "kind_free_text": "metadata constructors under a simulated clock moved between reads"},
+    {"name": "validators", "path": "sim/world_validators.py", "kind_free_text": "defensive / confused client calling every public validator and verifier with corrupted arguments"},
     {"name": "pgp", "path": "sim/world_pgp.py", "kind_free_text": "OpenPGP-mode world with the real gpg binary as peer, bit sweeps"},
 ]
